@@ -6,8 +6,8 @@ package metric
 // ManualReader, or a PeriodicReader's run loop / ForceFlush / Shutdown export in the background.
 
 import (
-	"errors"
 	"context"
+	"errors"
 	"fmt"
 	"os"
 	"sort"
